@@ -679,6 +679,7 @@ impl Program {
             used_qubits: HashSet::new(),
         };
         new_program.add_instructions(new_instructions);
+        new_program.rebuild_used_qubits();
         Ok(new_program)
     }
 
@@ -722,6 +723,7 @@ impl Program {
             used_qubits: HashSet::new(),
         };
         new_program.add_instructions(new_instructions);
+        new_program.rebuild_used_qubits();
         Ok((new_program, source_map))
     }
 
